@@ -4,5 +4,5 @@ From GS Require Import LTS Supervisor SupAccept SupProps.
 Extraction Language OCaml.
 From Coq Require Import ZArith.
 Extraction "m_sup.ml" Z.add sup_accept sup_depth sup_frontier init step step0 taus taus_nt autos quiescent census snapshot_of snap_diagnosis snap_census_max
-  c01_holdsb c01_order c01_exactly_once c01_not_before c03_holdsb c03_gate c03_once c03_pending c01_cancel_after c04_holdsb c04_needs_cause c04_nil c04_reports c05_holdsb c05_shape c05_no_dup
+  c01_holdsb c01_order c01_exactly_once c01_not_before c03_holdsb c03_gate c03_once c03_pending c01_cancel_after c04_holdsb c04_needs_cause c04_nil c04_reports c05_holdsb c05_shape c05_no_dup c05_lower
   c06_holdsb c06_final c06_sub_entry c18_holdsb c18_bounded.
